@@ -97,7 +97,8 @@ def plan(thorough, rng):
              ("randomQ_5", "randomS_12", "[0.2, 0.3]", False, 0.5), ("cube4D_9", "cube3D_9", "[0.2, 0.3, 0.5, 0.6]", False, 2),
              ("8", "12", "[0.2, 0.3, 0.45]", False, 2), ("5", "12", "[0.2, 0.3]", False, 2), ("5", "12", "[0.2, 0.3]", True, 2),
              ("5", "12", "[0.2, 0.3]", False, 1),        # the same grid in both position modes and with two factors, one process ("4", "ico_20", "[0.25, 0.4]", True, 1),
-             ("1", "1", "[0.2, 0.3]", False, 2), ("randomQ_8", "ico_7", "linspace(0.2, 0.4, 3)", False, 3)]
+             ("1", "1", "[0.2, 0.3]", False, 2), ("randomQ_8", "ico_7", "linspace(0.2, 0.4, 3)", False, 3),
+             ("randomQ_44", "4", "[0.2, 0.3]", False, 2)]       # a rotation grid with very small (< 1e-5) faces between cells
     if thorough:
         grids.append(("4", "4", "[0.2, 0.3]", True, 2))        # open Euclidean cells: listed known finding
     if thorough:
